@@ -10,9 +10,12 @@ T_RS = "actor::restart_strategy::RestartStrategy"
 PAYLOAD = "environment::payload::Payload"
 
 
+DEQUEUE_SUFFIX = ("StreamExt::next", "StreamExt::select_next_some", "StreamExt::poll_next_unpin", "Stream::poll_next", "StreamExt::try_next", "::try_next", "::try_recv")
+
+
 def is_mailbox_next(t):
     c = t.get("callee") or ""
-    if not c.endswith("StreamExt::next"):
+    if not c.endswith(DEQUEUE_SUFFIX):
         return False
     tys = " ".join(t.get("argtys", [])) + " ".join(t.get("gargs", []))
     return PAYLOAD + "<" in tys
@@ -20,7 +23,7 @@ def is_mailbox_next(t):
 
 def is_stream_next(t):
     c = t.get("callee") or ""
-    return c.endswith("StreamExt::next") and not is_mailbox_next(t)
+    return c.endswith(DEQUEUE_SUFFIX) and not is_mailbox_next(t)
 
 
 def is_task_invoke(t):
